@@ -562,6 +562,10 @@ def just(
 
     parser = mk_parser(tree.value)
 
+    if not crop and len(unparsed) > width:
+        # Justification only pads: a longer argument cannot be brought to `width`.
+        return SemPredEvalResult(False)
+
     unparsed_output = (
         unparsed.ljust(width, fill_char) if ljust else unparsed.rjust(width, fill_char)
     )
